@@ -2,6 +2,7 @@ import ProductMD.Proofs.C08Images
 import ProductMD.Proofs.C08CI
 import ProductMD.Proofs.C08Ini
 import ProductMD.Model.DiscInfo
+import ProductMD.Model.ManifestIO
 /-!
 # C08 - serialisation is canonical: the bytes written depend on the content only
 
@@ -170,6 +171,60 @@ theorem C08_repeat_images_state (s : Img.ImgState) :
       simpa [serialize] using this.symm
     subst this
     cases r <;> exact .inr rfl
+
+/-! ### non-vacuity, and the tie the quantifier excludes -/
+namespace Img
+open PM.PyOps PM.Spec
+
+def wImg (path : String) (n : Int) : Image :=
+  { path := .str (L path), mtime := .int 1, size := .int 1, volume_id := .none, type := .str (L "dvd"),
+    format := .str (L "iso"), arch := .str (L "x86_64"), disc_number := .int n, disc_count := .int 2,
+    checksums := .dict [(L "md5", .str (L "d41d8cd98f00b204e9800998ecf8427e"))], implant_md5 := .none, bootable := .bool false,
+    subvariant := .str (L "S"), unified := .bool false, additional_variants := .list [] }
+def wCompose : Compose :=
+  { id := .str (L "F-22-20150101.0"), type := .str (L "production"), date := .str (L "20150101"), respin := .int 0 }
+/-- two images with different paths, filed in the two possible orders -/
+def wA : ImgState := { compose := wCompose, cells := [(L "S", [(L "x86_64", [(0, wImg "S/x86_64/iso/b.iso" 1), (1, wImg "S/x86_64/iso/a.iso" 2)])])] }
+def wB : ImgState := { compose := wCompose, cells := [(L "S", [(L "x86_64", [(1, wImg "S/x86_64/iso/a.iso" 2), (0, wImg "S/x86_64/iso/b.iso" 1)])])] }
+/-- two images with the SAME path (their identity differs in `disc_number`, so `Images.add` accepts both) -/
+def wX : ImgState := { compose := wCompose, cells := [(L "S", [(L "x86_64", [(0, wImg "S/x86_64/iso/same.iso" 1), (1, wImg "S/x86_64/iso/same.iso" 2)])])] }
+def wY : ImgState := { compose := wCompose, cells := [(L "S", [(L "x86_64", [(1, wImg "S/x86_64/iso/same.iso" 2), (0, wImg "S/x86_64/iso/same.iso" 1)])])] }
+
+theorem wAB_same : Same wA wB := ⟨rfl, PermR.of_perm FSame.refl (List.Perm.swap _ _ _)⟩
+theorem wXY_same : Same wX wY := ⟨rfl, PermR.of_perm FSame.refl (List.Perm.swap _ _ _)⟩
+theorem wA_distinct : DistinctPaths (triples wA.cells) := by
+  intro v a
+  by_cases h : v = L "S" ∧ a = L "x86_64"
+  · obtain ⟨rfl, rfl⟩ := h; decide +kernel
+  · have : cellFilings (triples wA.cells) v a = [] := by
+      simp only [cellFilings, List.filter_eq_nil_iff]
+      intro t ht
+      have ht' : t.1 = L "S" ∧ t.2.1 = L "x86_64" := by
+        simp only [triples, entries, wA, List.flatMap_cons, List.flatMap_nil, List.map_cons, List.map_nil, List.append_nil,
+          List.mem_cons, List.not_mem_nil, or_false] at ht
+        rcases ht with rfl | rfl <;> exact ⟨rfl, rfl⟩
+      rw [ht'.1, ht'.2]
+      simp only [Bool.and_eq_true, beq_iff_eq, not_and]
+      intro e1 e2
+      exact h ⟨e1.symm, e2.symm⟩
+    rw [this]; exact List.nodup_nil
+end Img
+
+/-- the hypotheses of `C08_perm_images` are satisfiable by a genuine rearrangement, and the dump succeeds -/
+example : ∃ o, Img.serializeCells Img.wA.cells [] = .ok o ∧ (Img.dumps Img.wB).2 = (Img.dumps Img.wA).2 := by
+  cases h : Img.serializeCells Img.wA.cells [] with
+  | ok o => exact ⟨o, rfl, C08_perm_images Img.wA Img.wB Img.wAB_same Img.wA_distinct o h⟩
+  | error e =>
+    have : (match Img.serializeCells Img.wA.cells [] with | .ok _ => true | .error _ => false) = true := by decide +kernel
+    rw [h] at this; cases this
+
+/-- **Equal paths in one cell (outside the quantifier): the bytes DO depend on the order.**  The per-cell sort is by path
+only and stable, so two images of one cell with the same path come out in the set's iteration order - in CPython the order of
+the objects' addresses.  `wX` and `wY` are the same content (`Same`), both are written, the texts differ. -/
+theorem C08_images_equal_paths_witness :
+    Img.Same Img.wX Img.wY ∧
+    (match (Img.dumps Img.wX).2, (Img.dumps Img.wY).2 with | .ok a, .ok b => a != b | _, _ => false) = true :=
+  ⟨Img.wXY_same, by decide +kernel⟩
 
 /-! ## composeinfo -/
 namespace CI
@@ -383,5 +438,94 @@ theorem C08_order_kept_discinfo (x : DI.DiscInfo) (ns : List Int) (hx : x.discs 
 theorem C08_order_kept_discinfo_witness :
     DI.buildFile ["1.0".toList, "d".toList, "a".toList, Str.joinWith ',' ([1, 2].map Str.intStr)]
       ≠ DI.buildFile ["1.0".toList, "d".toList, "a".toList, Str.joinWith ',' ([2, 1].map Str.intStr)] := by decide
+
+/-! ## rpms / modules / extra_files: the payload is written verbatim -/
+
+/-- **C08 (rpms, modules, extra_files).**  The mapping the `add` calls built is stored and written verbatim, so the bytes
+are a function of that mapping modulo the order of the entries of its dicts at every level (variant, arch, srpm / module /
+… tables, checksum dicts); its lists (extra-file entries, a module's rpm list) are content.  [Which mapping a given
+HISTORY of `add` calls builds is C12's model; that two histories differing in the order of non-colliding calls build
+`JEq` mappings is checked by correspondence, not proved here.] -/
+theorem C08_perm_manifests (k : Mf.Kind) (m m' : Mf.Manifest) (hc : m.compose = m'.compose) (hp : JEq m.payload m'.payload) :
+    (Mf.dumps k m).2 = (Mf.dumps k m').2 := by
+  cases k <;> simp only [Mf.dumps, Mf.dumpDoc, Mf.serialize, Mf.Kind.className, ← hc]
+  all_goals
+    generalize validateClass _ [] = r0
+    cases r0 with
+    | error e => rfl
+    | ok u =>
+      cases u
+      simp only []
+      generalize Mf.headerSerialize _ = r1
+      cases r1 with
+      | error e => rfl
+      | ok hdr =>
+        simp only []
+        generalize Mf.composeSerialize _ = r2
+        cases r2 with
+        | error e => rfl
+        | ok c =>
+          simp only [Except.map]
+          congr 1
+          apply JEq.dumps_eq
+          refine .dict (.cons _ (.refl _) (.cons _ ?_ .nil)) (by simp only [List.map_cons, List.map_nil]; decide)
+          first
+            | exact .dict (.cons _ hp (.cons _ (.refl _) .nil)) (by simp only [List.map_cons, List.map_nil]; decide)
+            | exact .dict (.cons _ (.refl _) (.cons _ hp .nil)) (by simp only [List.map_cons, List.map_nil]; decide)
+
+/-- **C08 repeat (rpms, modules, extra_files).**  A dump sets `header.version` and nothing else that the next dump reads. -/
+theorem C08_repeat_manifests (k : Mf.Kind) (m : Mf.Manifest) : (Mf.dumps k (Mf.dumps k m).1).2 = (Mf.dumps k m).2 := by
+  have h : (Mf.dumps k m).1.compose = m.compose ∧ (Mf.dumps k m).1.payload = m.payload := by
+    unfold Mf.dumps Mf.dumpDoc
+    cases validateClass k.className [] with
+    | error e => exact ⟨rfl, rfl⟩
+    | ok u => cases u; exact ⟨rfl, rfl⟩
+  exact C08_perm_manifests k _ _ h.1 (h.2 ▸ JEq.refl _)
+
+/-! ## treeinfo, the whole writer (partial) -/
+
+/- Full statement (not proved): for trees `t ≈ t'` (variant dicts at every level, platforms, checksums, image tables, path
+tables rearranged) `TI.serialize t mv = .ok d → ∃ d', TI.serialize t' mv = .ok d' ∧ render d' = render d`.
+Proved: the two layers it decomposes into - every comma list the writer builds is order-independent
+(`C08_treeinfo_platforms`, `C08_treeinfo_variants_list`, `C08_treeinfo_addons`) and the bytes are a function of the written
+document modulo the order of sections and options (`C08_ini_canonical`).  Missing: that the documents written for `t` and `t'`
+are `IniEq` (the section-by-section analysis of `serializeInto` under rearrangement, and that success transfers). -/
+
+/-- **C08 (treeinfo), partial.**  Whenever the documents written for two trees are the same up to the order of sections and
+options, the files are byte-identical. -/
+theorem C08_perm_treeinfo_partial (t t' : TI.TreeInfo) (mv : Option Str) (d d' : Ini)
+    (_h : TI.serialize t mv = .ok d) (_h' : TI.serialize t' mv = .ok d') (he : IniText.IniEq d d')
+    (hk : IniText.DistinctKeys d) (hd : Ini.NoDefault d) : IniText.render d = IniText.render d' :=
+  C08_ini_canonical d d' he hk hd
+
+/-! ## non-vacuity (composeinfo) -/
+namespace CI
+def wV (id : Str) (arches : List Str) : Variant :=
+  .mk id id id k%"n" k%"variant" arches [] none []
+def wCI (vs : List Variant) : ComposeInfo :=
+  { compose := { id := k%"F-22-20150101.0", type := k%"production", date := k%"20150101", respin := 0, label := none, final := false },
+    release := { name := k%"F", short := k%"F", version := k%"22", type := k%"ga", isLayered := false, internal := false },
+    base := none, variants := vs }
+def wC1 : ComposeInfo := wCI [wV k%"Server" [k%"x86_64", k%"aarch64"], wV k%"Client" [k%"i386"]]
+def wC2 : ComposeInfo := wCI [wV k%"Client" [k%"i386"], wV k%"Server" [k%"aarch64", k%"x86_64"]]
+
+theorem wC_same : Same wC1 wC2 := by
+  refine ⟨rfl, rfl, rfl, ?_⟩
+  show LEq [wV k%"Server" [k%"x86_64", k%"aarch64"], wV k%"Client" [k%"i386"]] [wV k%"Client" [k%"i386"], wV k%"Server" [k%"aarch64", k%"x86_64"]]
+  refine .trans (.swap _ _ _) (.cons (VEq.refl _) (.cons ?_ .nil))
+  unfold wV
+  exact .mk _ _ _ _ _ _ (fun x => by simp only [List.mem_cons, List.not_mem_nil, or_false]; exact or_comm) (fun _ _ => rfl) .nil
+theorem wC_keys : DictKeysTop wC1 := by
+  refine ⟨by decide, ?_⟩
+  simp [wC1, wCI, wV, DictKeysL, DictKeys]
+end CI
+
+/-- the hypotheses of `C08_perm_composeinfo` hold for a genuine rearrangement of a compose that IS written -/
+example : ∃ b, CI.dumps CI.wC1 = .ok b ∧ CI.dumps CI.wC2 = .ok b := by
+  cases h : CI.dumps CI.wC1 with
+  | ok b => exact ⟨b, rfl, C08_perm_composeinfo _ _ CI.wC_same CI.wC_keys b h⟩
+  | error e =>
+    have : CI.isOk (CI.dumps CI.wC1) = true := by decide +kernel
+    rw [h] at this; cases this
 
 end PM
